@@ -192,16 +192,357 @@ def stream_correspondence(ck, stats):
                        "F": [o["F"] for o in c["ops"][:3]]}, limit=3)
 
 
+
+# --------------------------------------------------------------------------
+# entry-point oracle
+# --------------------------------------------------------------------------
+
+ASAN_DET = "detect_leaks=0:abort_on_error=0:allocator_may_return_null=1:max_malloc_fill_size=268435456:malloc_fill_byte=190"
+ENTRIES = ("path", "file", "mem", "cb")
+IDCHARS = set(b"ABCDEFGHIJKLMNOPQRSTUVWXYZ0123456789 ._-")
+
+
+def find_length_fields(b, limit=65536):
+    """Chunk-header heuristic: 4 id characters followed by a 32-bit length that fits the file.
+    -> [(offset of the length field, 'big'|'little', value)]"""
+    out = []
+    n = len(b)
+    for off in range(0, min(n, limit) - 8):
+        cid = b[off:off + 4]
+        if not all(c in IDCHARS for c in cid) or sum(1 for c in cid if 65 <= c <= 90) < 2:
+            continue
+        rem = n - (off + 8)
+        for en in ("big", "little"):
+            v = int.from_bytes(b[off + 4:off + 8], en)
+            if 0 < v <= rem + 8:
+                out.append((off + 4, en, v))
+                break
+    return out
+
+
+def mutations(rng, b, n_mut, heavy):
+    """-> list of (label, trunc, [(off, bytes)])"""
+    n = len(b)
+    muts = []
+    fields = find_length_fields(b)
+    pool = []
+    # truncations at interesting offsets
+    for k in (1, 2, 3, 4, 7, 8, 16, 20, 64, 100, 384, 1080, 1084):
+        if k < n:
+            pool.append(("trunc@%d" % k, k, []))
+    for k in (1, 2, 3, 4, 8, 31):
+        if n - k > 0:
+            pool.append(("trunc@end-%d" % k, n - k, []))
+    pool.append(("trunc@half", n // 2, []))
+    for _ in range(3):
+        pool.append(("trunc@rand", rng.randrange(1, n) if n > 1 else 1, []))
+    for (off, en, v) in fields[:200]:
+        hdr_end = off + 4
+        for d in (0, 1, 2, v // 2, v - 1):
+            t = hdr_end + d
+            if 0 < t < n:
+                pool.append(("trunc@chunk+%d" % d, t, []))
+        pool.append(("trunc@chunk-hdr", off + 2, []))
+    # bit flips, biased to the header
+    for _ in range(6):
+        off = rng.randrange(0, min(n, 2048)) if rng.random() < 0.7 else rng.randrange(0, n)
+        pool.append(("flip@%d" % off, -1, [(off, bytes([b[off] ^ (1 << rng.randrange(8))]))]))
+    # inflated length fields (feed SEEK_CUR / chunk loops): to the end exactly, beyond it, far beyond
+    for (off, en, v) in fields[:200]:
+        rem = n - (off + 4)
+        for nv, lab in ((rem, "len=rest"), (rem + 1, "len=rest+1"), (rem + 64, "len=rest+64"), (rem - 1, "len=rest-1"),
+                        (0x000fffff, "len=1M-1"), (0x7ffffff0, "len=huge"), (0xffffffff, "len=-1")):
+            if nv >= 0:
+                pool.append(("inflate@%d:%s" % (off, lab), -1, [(off, (nv & 0xffffffff).to_bytes(4, en))]))
+    # generic 16/32-bit fields in the header set to extreme values
+    for _ in range(4):
+        off = rng.randrange(0, min(n, 1536))
+        pool.append(("ff@%d" % off, -1, [(off, b"\xff" * rng.choice((1, 2, 4)))]))
+    rng.shuffle(pool)
+    # keep a mix: prefer chunk-derived ones when present
+    chunky = [m for m in pool if "chunk" in m[0] or "inflate" in m[0]]
+    rest = [m for m in pool if m not in chunky]
+    k_ch = min(len(chunky), n_mut * (3 if heavy else 1) // 2)
+    muts = chunky[:k_ch] + rest[:max(0, n_mut * (2 if heavy else 1) - k_ch)]
+    return muts
+
+
+def synth_files(td):
+    """Inputs derived from the divergence map (DESIGN 4 C07): MUSX file whose last chunk claims more
+    bytes than remain (arch_test loops on hio_eof and skips with SEEK_CUR)."""
+    d = os.path.join(td, "synth")
+    os.makedirs(d, exist_ok=True)
+    out = []
+    musx = b"MUSX" + (128).to_bytes(4, "little") + b"TINF" + (200).to_bytes(4, "little") + bytes(120)
+    p = os.path.join(d, "musx-trunc-chunk.musx")
+    open(p, "wb").write(musx)
+    out.append(p)
+    musx2 = b"MUSX" + (128).to_bytes(4, "little") + b"TINF" + (120).to_bytes(4, "little") + bytes(120)
+    p = os.path.join(d, "musx-exact-chunk.musx")
+    open(p, "wb").write(musx2)
+    out.append(p)
+    return out
+
+
+def parse_entry_output(text):
+    cases, cur = {}, None
+    order = []
+    for line in text.splitlines():
+        f = line.split(" ")
+        if f[0] == "begin":
+            cur = {"id": f[1], "meta": dict(x.split("=") for x in f[2:]), "L": {}, "T": {}, "done": False}
+            cases[f[1]] = cur
+            order.append(f[1])
+        elif cur is None:
+            continue
+        elif f[0] in ("L", "T") and len(f) >= 3:
+            i = f.index([x for x in f if x.startswith("opens=")][0])
+            cur[f[0]][f[1]] = {"res": tuple(f[2:i]), "opens": int(f[i][6:]), "first": bytes.fromhex(f[i + 1]).decode("latin-1") if f[i + 1] != "-" else ""}
+        elif f[0] == "end":
+            cur["done"] = True
+            cur = None
+    return cases, order
+
+
+def hexstr(h):
+    return bytes.fromhex(h).decode("latin-1") if h and h != "-" else ""
+
+
+def run_entry_cases(ck, exe, td, cases, nframes, tag):
+    """cases: list of (id, src, trunc, edits).  Runs them sharded; survives harness aborts.
+    -> dict id -> parsed result, list of (id, abort signature, stderr)"""
+    shards = [cases[i::vlib.NCPU] for i in range(vlib.NCPU)]
+    shards = [s for s in shards if s]
+
+    def work(args):
+        si, items = args
+        res, aborts = {}, []
+        sdir = os.path.join(td, "%s-%d-%d" % (tag, os.getpid(), si))
+        os.makedirs(sdir, exist_ok=True)
+        todo = list(items)
+        while todo:
+            cf = os.path.join(sdir, "cases.txt")
+            with open(cf, "w") as o:
+                for (cid, src, trunc, edits) in todo:
+                    o.write("case\t%s\t%s\t%d\t%d%s\n" % (cid, src, trunc, len(edits),
+                                                         "".join("\t%d:%s" % (off, bs.hex()) for off, bs in edits)))
+            rc, out, err = vlib.run_exe(exe, [str(ck.seed), sdir, cf, str(nframes)], timeout=900,
+                                        env={"ASAN_OPTIONS": ASAN_DET})
+            parsed, order = parse_entry_output(out.decode("latin-1"))
+            done_ids = {k for k, v in parsed.items() if v["done"]}
+            res.update({k: parsed[k] for k in done_ids})
+            if rc == 0:
+                break
+            # the case being run when the harness died
+            started = [k for k in order if k not in done_ids]
+            ids = [c[0] for c in todo]
+            if started:
+                bad = started[0]
+            else:
+                skipped = set(re.findall(r"^skip (\S+)", out.decode("latin-1"), re.M))
+                rest = [i for i in ids if i not in done_ids and i not in skipped]
+                bad = rest[0] if rest else None
+            if bad is None:
+                break
+            aborts.append((bad, "hang" if rc == -999 else vlib.sanitizer_signature(err), err[-2500:]))
+            todo = todo[ids.index(bad) + 1:]
+        for f in os.listdir(sdir):
+            try:
+                os.unlink(os.path.join(sdir, f))
+            except OSError:
+                pass
+        try:
+            os.rmdir(sdir)
+        except OSError:
+            pass
+        return res, aborts
+
+    allres, allab = {}, []
+    for res, ab in vlib.pmap(work, list(enumerate(shards))):
+        allres.update(res)
+        allab += ab
+    return allres, allab
+
+
+def judge(r, gen):
+    """The property on one case.  -> list of (kind, detail) disagreements, fmt id, class info."""
+    container = r["meta"].get("container") in ("1", "2")
+    external = r["meta"].get("container") == "2"     # MO3 / Rar: unpacked by a helper that needs a file name
+    types = [hexstr(v["res"][-1]) for v in r["L"].values() if v["res"][0] == "0"] + \
+            [hexstr(v["res"][2]) for v in r["T"].values() if v["res"][0] == "0"]
+    ttypes = [hexstr(v["res"][2]) for v in r["T"].values() if v["res"][0] == "0" and len(v["res"]) > 2]
+    fmt_file, fmt_id = None, "unknown"
+    for t in ttypes + types:
+        if t in gen["formats"]:
+            fmt_file, fmt_id = gen["formats"][t]
+            break
+    multi = fmt_file in gen["companion_files"]
+    problems = []
+    lgroups = [["file", "mem", "cb"]] if (container or multi) else [list(ENTRIES)]
+    tgroups = [["file", "mem", "cb"]] if external else [["path", "file"], ["mem", "cb"]] if container else [list(ENTRIES)]
+    names = ("rc", "tables", "md5", "sequences", "pcm", "type")
+    for g in lgroups:
+        vals = {e: r["L"][e]["res"] for e in g if e in r["L"]}
+        if len(set(vals.values())) > 1:
+            ref = vals[g[0]]
+            for e in g[1:]:
+                if vals[e] != ref:
+                    if len(vals[e]) != len(ref) or vals[e][0] != ref[0]:
+                        what = "rc"
+                    else:
+                        what = [names[i] for i in range(len(ref)) if vals[e][i] != ref[i]][0]
+                    problems.append(("load-" + what, "load %s=%s vs %s=%s" % (g[0], " ".join(ref)[:90], e, " ".join(vals[e])[:90])))
+                    break
+    for g in tgroups:
+        vals = {e: r["T"][e]["res"] for e in g if e in r["T"]}
+        if len(set(vals.values())) > 1:
+            ref = vals[g[0]]
+            for e in g[1:]:
+                if vals[e] != ref:
+                    what = "rc" if vals[e][0] != ref[0] else ("title" if vals[e][1] != ref[1] else "type")
+                    problems.append(("test-" + what, "test %s=(%s,%r,%r) vs %s=(%s,%r,%r)" % (
+                        g[0], ref[0], hexstr(ref[1]), hexstr(ref[2]), e, vals[e][0], hexstr(vals[e][1]), hexstr(vals[e][2]))))
+                    break
+    # companion files are resolved only for path loads; tests never open anything (FILE/path tests of
+    # containers write a temp file)
+    for e in ("file", "mem", "cb"):
+        if e in r["L"] and r["L"][e]["opens"] > 0:
+            first = r["L"][e]["first"]
+            problems.append(("null-path" if "(null)" in first else "companion-open",
+                             "load via %s opened %r (%d opens) although no path is known" % (e, first, r["L"][e]["opens"])))
+            break
+    for e in ENTRIES:
+        if e in r["T"] and r["T"][e]["opens"] > 0 and not (container and e in ("path", "file")):
+            if e == "path" and r["T"][e]["opens"] == 1:
+                continue        # hio_open of the tested file itself
+            problems.append(("test-open", "test via %s opened %r" % (e, r["T"][e]["first"])))
+            break
+    return problems, fmt_id, fmt_file, container, multi
+
+
+def signature_for(kind, fmt_id, fmt_file, gen):
+    handle_users = {u["file"] for u in gen["hio_users"] if u["kind"] == "handleType"}
+    if fmt_file in handle_users and kind in ("load-rc", "test-rc", "load-type", "test-type"):
+        return "entry:%s:file-handle" % fmt_id
+    if fmt_id == "arch" and kind in ("load-rc", "test-rc"):
+        return "entry:arch:musx-trunc"
+    if kind == "null-path":
+        return "entry:%s:null-path" % fmt_id
+    return "entry:%s:%s" % (fmt_id, kind)
+
+
+def entrypoint_oracle(ck, gen, stats):
+    exe = vlib.build_harness("c07_entrypoints", ["c07_entrypoints.c"], extra=["-Wl,--wrap=fopen,--wrap=opendir"])
+    quick = ck.tier == "quick"
+    td = tmpdir()
+    files = [f for f in vlib.corpus_files() if os.path.getsize(f) <= (600000 if quick else 4000000)]
+    synth = synth_files(td)
+    base = [("b%d" % i, f, -1, []) for i, f in enumerate(synth + files)]
+    src_of = {c[0]: c for c in base}
+    nframes = 3 if quick else 8
+    res, aborts = run_entry_cases(ck, exe, td, base, nframes, "base")
+    stats["entry_files"] = len(base)
+    # second round: mutations of single-file, uncompressed, recognised inputs; loaders that use divergent ops first
+    hot = set(gen["eof_files"]) | set(gen["read8s_files"])
+    warm = set(gen["data_seek_files"])
+    cand = []
+    for cid, r in res.items():
+        problems, fmt_id, fmt_file, container, multi = judge(r, gen)
+        if container:
+            stats["containers"] += 1
+            continue
+        recognised = any(v["res"][0] == "0" for v in r["T"].values())
+        if not recognised:
+            stats["unrecognised"] += 1
+            continue
+        pri = 0 if fmt_file in hot else 1 if fmt_file in warm else 2
+        cand.append((pri, cid, fmt_file))
+    cand.sort()
+    n_files = len(cand) if not quick else min(len(cand), 220)
+    if quick:
+        # all hot ones, then a seeded sample of the rest
+        hot_c = [c for c in cand if c[0] == 0]
+        rest = [c for c in cand if c[0] != 0]
+        ck.rng.shuffle(rest)
+        cand = hot_c + rest[:max(0, n_files - len(hot_c))]
+    mut_cases = []
+    for pri, cid, fmt_file in cand:
+        src = src_of[cid][1]
+        b = open(src, "rb").read()
+        if not b:
+            continue
+        n_mut = (10 if pri == 0 else 5) if quick else (60 if pri == 0 else 24)
+        for k, (label, trunc, edits) in enumerate(mutations(ck.rng, b, n_mut, pri == 0)):
+            mid = "%s.m%d" % (cid, k)
+            mut_cases.append((mid, src, trunc, edits))
+            src_of[mid] = (mid, src, trunc, edits, label)
+    res2, aborts2 = run_entry_cases(ck, exe, td, mut_cases, nframes, "mut")
+    res.update(res2)
+    aborts += aborts2
+    for (cid, sig, err) in aborts:
+        c = src_of[cid]
+        ck.violation("entrypoints-abort:" + sig, {"kind": "entry", "case": list(c[:4]), "stderr": err},
+                     "entry-point harness aborted on %s (%s): %s" % (os.path.basename(c[1]), c[4] if len(c) > 4 else "intact", sig))
+        stats["entry_aborts"] += 1
+    for cid, r in sorted(res.items()):
+        c = src_of[cid]
+        problems, fmt_id, fmt_file, container, multi = judge(r, gen)
+        rcs = tuple(r["L"][e]["res"][0] for e in ENTRIES if e in r["L"])
+        stats["entry_cases"] += 1
+        stats["rc_" + (rcs[1] if len(rcs) > 1 else "?")] = stats.get("rc_" + (rcs[1] if len(rcs) > 1 else "?"), 0) + 1
+        if container:
+            stats["entry_container_cases"] += 1
+        if multi:
+            stats["entry_multifile_cases"] += 1
+        label = c[4] if len(c) > 4 else "intact"
+        stats["mut_" + label.split("@")[0].split(":")[0]] = stats.get("mut_" + label.split("@")[0].split(":")[0], 0) + 1
+        loaded = "0" in rcs
+        ck.count(cid + ":" + label, nontrivial=(label != "intact") and any(
+            v["res"][0] == "0" for v in r["T"].values()))
+        if loaded:
+            stats["entry_loaded"] += 1
+        for kind, detail in problems:
+            sig = signature_for(kind, fmt_id, fmt_file, gen)
+            ck.violation(sig, {"kind": "entry", "case": [c[0], c[1], c[2], [[o, bs.hex()] for o, bs in c[3]]],
+                               "mutation": label, "format": fmt_id},
+                         "%s [%s %s, %d bytes]: %s" % (sig, os.path.basename(c[1]), label, int(r["meta"]["size"]), detail))
+            stats["entry_disagreements"] += 1
+        if len(ck.cov["samples"]) < 6 and label != "intact" and loaded:
+            ck.sample({"file": os.path.basename(c[1]), "mutation": label, "load": {e: " ".join(r["L"][e]["res"])[:60] for e in r["L"]}}, limit=6)
+
+
 def run(ck):
-    stats = {"ops": 0, "ops_in_fragment": 0, "s8_at_eof": 0, "cases_with_observed_divergence": 0}
-    ck.proofs(["XmpProps.C07"], required=REQUIRED, drivers=["drv_c07"])
+    import gen_hio_users
+    stats = {"ops": 0, "ops_in_fragment": 0, "s8_at_eof": 0, "cases_with_observed_divergence": 0,
+             "entry_cases": 0, "entry_loaded": 0, "entry_disagreements": 0, "entry_aborts": 0, "containers": 0,
+             "unrecognised": 0, "entry_container_cases": 0, "entry_multifile_cases": 0}
+    gen = gen_hio_users.generate()
+    ck.note("hio_users", ["%s:%s:%s" % (u["file"], u["func"], u["kind"]) for u in gen["hio_users"]])
+    ck.note("divergence_map", {"eof_files": gen["eof_files"], "read8s_files": gen["read8s_files"],
+                               "data_seek_files": len(gen["data_seek_files"]), "companion_files": gen["companion_files"]})
+    ck.proofs(["XmpProps.C07", "XmpModel.Gen.HioUsers"],
+              required=REQUIRED + ["Xmp.Gen.HioUsers.hioUsers_known", "Xmp.Gen.HioUsers.hioUsers_no_loader",
+                                   "Xmp.Gen.HioUsers.hioUsers_no_field"],
+              drivers=["drv_c07"])
     stream_correspondence(ck, stats)
+    entrypoint_oracle(ck, gen, stats)
     for k, v in sorted(stats.items()):
         ck.note(k, v)
-    ck.cov["rule"] = "TODO"
+    ck.cov["rule"] = ("(a) stream cases = (byte string 1..64 bytes, callback policy, 1..64 random hio operations incl. every divergent one) "
+                      "from VERIF_SEED, distinct by hash of the script, non-trivial = at least 3 operations inside the agreeing fragment and "
+                      "at least 4 operations; (b) entry-point cases = (corpus or synthetic file, mutation: truncation at chunk/header/end offsets, "
+                      "bit flip, inflated chunk length, 0xff field) x 4 load + 4 test entry points, distinct by (file, mutation), "
+                      "non-trivial = a mutated input that at least one test entry point still recognises")
+    ck.assumptions += [
+        "callbacks honour the fread/fseek/ftell contract `Legal` (C standard semantics; contents of a partial trailing item and seeks beyond the end unconstrained)",
+        "glibc stdio on a regular file behaves as observed by the correspondence harness (EOF indicator kept by a failed fseek, fseek beyond the end allowed)",
+        "the empty byte string is outside the domain (the memory entry points refuse size <= 0)",
+        "the path entry point is exercised in a directory without companion files; for multi-file formats (translator: loaders that open files) it is compared with nothing",
+    ]
 
 
 def replay(ck, rp):
+    import gen_hio_users
     r = rp["replay"]
     if isinstance(r, dict) and "script" in r:
         exe = vlib.build_harness("c07_streamops", ["c07_streamops.c"])
@@ -209,11 +550,37 @@ def replay(ck, rp):
         open(path, "w").write(r["script"])
         tmp = os.path.join(tmpdir(), "replay-%d.bin" % os.getpid())
         rc, out, err = vlib.run_exe(exe, ["--replay", path, tmp])
-        text = out.decode("latin-1")
-        print(text[-3000:])
+        print(out.decode("latin-1")[-3000:])
         print(err[-2000:])
-        mlines = vlib.run_driver("drv_c07", r["script"])
-        print("\n".join(mlines[-40:]))
+        print("model:")
+        print("\n".join(vlib.run_driver("drv_c07", r["script"])[-40:]))
+        cases = parse_stream_cases(out.decode("latin-1"))
+        bad = rc != 0
+        print("VIOLATION property=C07 replay=%s" % path if bad else "see outputs above (real F/M/C vs model)")
         return 1
+    if isinstance(r, dict) and r.get("kind") == "entry":
+        gen = gen_hio_users.generate()
+        exe = vlib.build_harness("c07_entrypoints", ["c07_entrypoints.c"], extra=["-Wl,--wrap=fopen,--wrap=opendir"])
+        td = os.path.join(tmpdir(), "replay-%d" % os.getpid())
+        os.makedirs(td, exist_ok=True)
+        cid, src, trunc, edits = r["case"][:4]
+        if not os.path.exists(src):
+            synth_files(tmpdir())
+        cf = os.path.join(td, "case.txt")
+        open(cf, "w").write("case\t%s\t%s\t%d\t%d%s\n" % (cid, src, trunc, len(edits), "".join("\t%d:%s" % (o, h) for o, h in edits)))
+        rc, out, err = vlib.run_exe(exe, [str(rp.get("seed", 1)), td, cf, "3"], env={"ASAN_OPTIONS": ASAN_DET})
+        text = out.decode("latin-1")
+        print(text)
+        print(err[-3000:])
+        parsed, _ = parse_entry_output(text)
+        bad = rc != 0
+        for k, v in parsed.items():
+            problems = judge(v, gen)[0]
+            for kind, detail in problems:
+                print("DISAGREEMENT %s: %s" % (kind, detail))
+                bad = True
+        if bad:
+            print("VIOLATION property=C07 replay=%s" % cf)
+        return 1 if bad else 0
     print(json.dumps(rp, indent=1)[:4000])
     return 1
